@@ -226,7 +226,7 @@ func renderEvents(recs []sim.Rec, chanIdx map[*gomavlib.Channel]int) string {
 func TestC10EventStream(t *testing.T) {
 	rec := evid.New(t, "C10", "scripted scenarios on a real Node: 1..4 channels (custom in-memory transports, TCP-server and UDP-server peers on loopback) each fed a generated script of valid tagged frames, complete frames with wrong checksum / wrong signature / missing signature and non-marker junk in generated chunkings, a consumer with generated pacing (fast, sleeping, bursty, paused then resumed), concurrent WriteMessageAll callers, late-connecting and disconnecting TCP peers; per channel the event sequence must match Open (Frame|ParseError)* Close?, frames == the valid frames of that channel's script in order with the channel's tag, rejected input only as ParseError, exactly one Close for a disconnected peer and nothing after it; non-trivial = >=2 channels with >=1 rejected segment and a non-fast consumer; distinct by hash of the scripts")
 	rec.Require("multi-channel+rejected+slow-consumer", "custom", "tcp", "udp", "inkey", "disconnect", "paused-consumer", "concurrent-writers")
-	evid.Check(t, rec, evid.N(150, 600), func(t *rapid.T) {
+	evid.Check(t, rec, evid.N(400, 1000), func(t *rapid.T) {
 		w := &c10World{}
 		w.dialect = rapid.IntRange(0, 3).Draw(t, "dialect") > 0
 		if rapid.IntRange(0, 3).Draw(t, "inkey") == 0 {
